@@ -153,3 +153,25 @@ Definition copula3_ok (cop : list (ext R) -> R) : Prop :=
      0 <= cop [u2; v2; w2] - cop [u2; v2; w1] - cop [u2; v1; w2] + cop [u2; v1; w1]
           - cop [u1; v2; w2] + cop [u1; v2; w1] + cop [u1; v1; w2] - cop [u1; v1; w1]) /\
   (forall u : R, margin RNum cop [0%nat] 3 [Fin u] = u /\ margin RNum cop [1%nat] 3 [Fin u] = u /\ margin RNum cop [2%nat] 3 [Fin u] = u).
+
+(* ---- totalisation made explicit (C11-4): the values the (repaired) code returns on vectors whose entries are ALL infinite.
+   indep / dep / clayton above are only meaningful when at least one entry is finite; there the extended value below is
+   Fin of them.  All-infinite vectors:
+     independent: sum_k u_k * prod_{j<>k}[u_j == +inf]  ->  +inf if all +inf, -inf if exactly one -inf and the rest +inf, else 0
+     dependent  : all +inf -> +inf; all -inf -> -(-inf) * eps = +inf (d even) / -inf (d odd); mixed -> 0
+     Clayton    : 0 ** (-1/theta) = inf times 2^(2-d) factor: +-inf, and nan when the factor is 0 (eta in {0,1}): NOT modelled.
+   copula2_ok / copula3_ok exclude rectangles with no finite side precisely because such corners are infinite. *)
+Section Total.
+  Variable N : Num.
+  Notation E := (ext N).
+  Definition all_inf (us : list E) : bool := forallb (fun x => negb (is_fin N x)) us.
+  Definition count_ninf (us : list E) : nat := length (filter (fun x => match x with NInf => true | _ => false end) us).
+  Definition indep_x (us : list E) : E :=
+    if all_inf us then (match count_ninf us with O => PInf | S O => NInf | _ => Fin (n0 N) end) else Fin (indep N us).
+  Definition dep_x (us : list E) : E :=
+    if all_inf us then
+      (if Nat.eqb (count_ninf us) 0 then PInf
+       else if Nat.eqb (count_ninf us) (length us) then (if Nat.odd (length us) then NInf else PInf)
+       else Fin (n0 N))
+    else Fin (dep N us).
+End Total.
